@@ -920,9 +920,23 @@ fn gen_scenario(rng: &mut Rng) -> Scenario {
                     m => m,
                 };
                 let port = 7300 + mode as u16;
-                v.push(Op::Spawn { local: true, ops: vec![Op::Sleep { ticks: rng.range(0, w as u64 / 2) as u8 }, Op::Connect { host: p0 as u8, port }, Op::Write { len: 8, times: 1, gap: 0 }, Op::ReadToEnd { buf: 16 }] });
+                // what the dialing victim does with the stream: talk and read / read slowly / never read
+                let mut vops = vec![Op::Sleep { ticks: rng.range(0, w as u64 / 2) as u8 }, Op::Connect { host: p0 as u8, port }];
+                match rng.below(3) {
+                    0 => vops.extend([Op::Write { len: 8, times: 1, gap: 0 }, Op::ReadToEnd { buf: 16 }]),
+                    1 => vops.push(Op::Read { buf: *rng.pick(&[4u16, 16, 64]), times: 400, gap: rng.range(1, 3) as u8 }),
+                    _ => vops.push(Op::Forever { gap: 2 }),
+                }
+                v.push(Op::Spawn { local: true, ops: vops });
+                // what the accepting peer does: read / write within the credits / write until it is parked on
+                // the credits (the acceptor-side counterpart of the blocked-writer phase)
+                let serve = match rng.below(3) {
+                    0 => vec![Op::ReadToEnd { buf: 16 }],
+                    1 => vec![Op::Write { len: *rng.pick(&[1u16, 8, 32]), times: rng.range(1, cap.min(12) as u64) as u16, gap: 0 }, Op::ReadToEnd { buf: 16 }],
+                    _ => vec![Op::Write { len: *rng.pick(&[1u16, 8, 32]), times: rng.range(cap as u64 + 1, cap as u64 + 8) as u16, gap: *rng.pick(&[0u8, 0, 1]) }, Op::ReadToEnd { buf: 16 }],
+                };
                 match mode {
-                    0 => peer_tasks.push(vec![Op::Listen { port }, Op::AcceptLoop { serve: vec![Op::ReadToEnd { buf: 16 }] }]),
+                    0 => peer_tasks.push(vec![Op::Listen { port }, Op::AcceptLoop { serve }]),
                     1 => peer_tasks.push(vec![Op::Listen { port }, Op::Forever { gap: 1 }]),
                     _ => {}
                 }
@@ -1132,8 +1146,18 @@ fn execute(sc: &Scenario, keep: bool) -> RunOut {
                                         continue;
                                     }
                                     match p.kind {
-                                        PK::Read => pend_stats[0] += 1,
-                                        PK::Write => pend_stats[1] += 1,
+                                        PK::Read => {
+                                            pend_stats[0] += 1;
+                                            if p.conn_accepted {
+                                                probes.push("acceptor_peer_read_pending_at_crash_of_dialer");
+                                            }
+                                        }
+                                        PK::Write => {
+                                            pend_stats[1] += 1;
+                                            if p.conn_accepted {
+                                                probes.push("acceptor_peer_write_blocked_at_crash_of_dialer");
+                                            }
+                                        }
                                         PK::Connect => {
                                             // queued in v's backlog iff the request arrived before the crash
                                             let arrive_max = p.start_step + lt + if zero_lat { 1 } else { 0 };
